@@ -21,11 +21,12 @@ CFG = dict(
     rule="adversarial prefixes as for C01 (n=4,7; ≤ f Byzantine; drops, duplicates, reorderings, timeouts, compaction on/off, own-network faults; operators running ahead on their own "
          "timers and pulling others by f+1 announcements, lost round-change announcements; real rotating leader), then the Byzantine operators go silent and the constructed "
          "continuation runs on the real controllers: everything ever sent is delivered (the leader of a round receives its round-changes with the highest prepared one on the "
-         "quorum edge); TIMERS FIRE AS ARMED — only the one timer an operator armed last, with the height and round it was armed for (Controller.OnTimeout discards others; an "
+         "quorum edge); with own-network faults on, a firing round timer meets a failing Broadcast in 5/15/40 % of the expiries (error after or before sending in the prefix, after sending in the "
+         "continuation) and the timeout-progress oracle still demands round+1, cleared proposal and a re-armed timer; TIMERS FIRE AS ARMED — only the one timer an operator armed last, with the height and round it was armed for (Controller.OnTimeout discards others; an "
          "operator without a live timer never times out); at most f+3 rounds. Step-level oracles on the real controller after every op of a correct operator: "
          "timeout-without-progress (every round up to the cut-off: round+1, accepted proposal cleared, timer re-armed, exactly one round-change carrying the lock), "
          "undecided-operator-without-live-round-timer, not-pulled-by-f+1-round-changes, correct-leaders-proposal-refused (a correct round-robin leader's proposal must be "
-         "accepted by every correct undecided operator in a round ≤ its round). 9 directed scenarios first (incl. 14 timeouts up to the cut-off for n=4,7; pulled-then-own-timer; "
+         "accepted by every correct undecided operator in a round ≤ its round). 10 directed scenarios first (incl. 14 timeouts up to the cut-off for n=4,7; pulled-then-own-timer; "
          "laggard that timed out once; future-round proposal reaching a laggard first); every correct operator's trace is diffed against the Lean model",
     trusted_base=["harness abstraction + scheduler + continuation (harness/cmd/qbft/simsearch.go, directed.go)", "BLS / SHA-256 abstracted"],
     assumptions=["timely delivery among correct operators after the chosen point; every message a correct operator ever sent is eventually delivered (drops = delays)"],
